@@ -11,7 +11,7 @@ import (
 )
 
 func init() {
-	register(&Rule{ID: "C11.VISIT", Min: 12, Doc: "every child of an expression node is checked on every path (or a diagnostic is emitted): no sub-expression escapes the semantic and untrusted-input checks", Run: runC11Visit})
+	register(&Rule{ID: "C11.VISIT", Min: 17, Doc: "every child of an expression node is checked on every path (or a diagnostic is emitted): no sub-expression escapes the semantic and untrusted-input checks", Run: runC11Visit})
 	register(&Rule{ID: "C11.SITE", Min: 2, Doc: "the untrusted-input checker is enabled exactly for run: scripts and the script input of actions/github-script", Run: runC11Site})
 	register(&Rule{ID: "C11.PAIR", Min: 2, Doc: "enter/leave callbacks of the untrusted checker bracket every node; Init before and OnVisitEnd after the walk", Run: runC11Pair})
 	register(&Rule{ID: "C11.ORDER", Min: 2, Doc: "the index of an index access is visited before its operand in both traversals", Run: runC11Order})
@@ -163,18 +163,77 @@ func runC11Visit(c *Ctx) {
 			k := FuncName(fn) + "|children of " + typeStr(n.Type())
 			occ[k]++
 			construct := fmt.Sprintf("%s#%d", k, occ[k])
-			missing := visitObligation(p, fn, n, children)
+			missing := visitObligation(p, fn, n, children, nil)
 			if missing == "" {
 				c.ok(construct, n.Pos(), "on every path to a return: the node is handed on whole, or each of {"+strings.Join(children, ", ")+"} is checked, or a diagnostic is emitted")
 			} else {
 				c.bad(construct, n.Pos(), missing+": a sub-expression is neither type-checked nor seen by the untrusted-input and availability checks when it occurs at that position")
 			}
 		}
+		// a dispatcher (type tests on its node parameter) without a case for a node kind that has children: on the paths
+		// that take no case the node must be handed on whole (or a diagnostic emitted), otherwise the children of that
+		// kind are never visited by this traversal
+		idx := isVisitorFunc(p, fn)
+		if idx >= len(fn.Params) || typeStr(fn.Params[idx].Type()) != "ExprNode" {
+			continue
+		}
+		prm := fn.Params[idx]
+		tested := map[string]bool{}
+		taken := map[*ssa.BasicBlock]bool{}
+		eachInstr(fn, func(_ *ssa.BasicBlock, _ int, in ssa.Instruction) {
+			ta, ok := in.(*ssa.TypeAssert)
+			if !ok || !ta.CommaOk || ta.X != prm {
+				return
+			}
+			tested[typeStr(ta.AssertedType)] = true
+			for _, ref := range *ta.Referrers() {
+				if okv, isEx := ref.(*ssa.Extract); isEx && okv.Index == 1 {
+					for _, r2 := range *okv.Referrers() {
+						if ifi, isIf := r2.(*ssa.If); isIf {
+							taken[ifi.Block().Succs[0]] = true
+						}
+					}
+				}
+			}
+		})
+		if len(tested) == 0 {
+			continue
+		}
+		for _, kind := range nodeKindsWithChildren(p) {
+			if tested[typeStr(kind)] {
+				continue
+			}
+			children, _ := exprNodeChildren(p, kind)
+			construct := FuncName(fn) + "|no case for " + typeStr(kind)
+			if missing := visitObligation(p, fn, prm, children, taken); missing == "" {
+				c.ok(construct, fn.Pos(), "on every path that takes no case the node is handed on whole to a traversal function, or a diagnostic is emitted")
+			} else {
+				c.bad(construct, fn.Pos(), "a "+typeStr(kind)+" takes no case and is not handed on: its children {"+strings.Join(children, ", ")+"} are never visited by this traversal")
+			}
+		}
 	}
 }
 
-// visitObligation runs a forward must-analysis: which children of n have been handed to a visitor.
-func visitObligation(p *Prog, fn *ssa.Function, n ssa.Value, children []string) string {
+// nodeKindsWithChildren: the concrete expression node types (pointers) that have sub-expressions, in name order.
+func nodeKindsWithChildren(p *Prog) []types.Type {
+	var out []types.Type
+	sc := p.Main.Types.Scope()
+	for _, nm := range sc.Names() {
+		tn, ok := sc.Lookup(nm).(*types.TypeName)
+		if !ok || tn.IsAlias() {
+			continue
+		}
+		pt := types.NewPointer(tn.Type())
+		if ch, ok := exprNodeChildren(p, pt); ok && len(ch) > 0 {
+			out = append(out, pt)
+		}
+	}
+	return out
+}
+
+// visitObligation runs a forward must-analysis: which children of n have been handed to a visitor. Paths that enter a
+// block of `stop` are not considered.
+func visitObligation(p *Prog, fn *ssa.Function, n ssa.Value, children []string, stop map[*ssa.BasicBlock]bool) string {
 	defBlock := fn.Blocks[0]
 	if in, ok := n.(ssa.Instruction); ok {
 		defBlock = in.Block()
@@ -260,42 +319,18 @@ func visitObligation(p *Prog, fn *ssa.Function, n ssa.Value, children []string) 
 		}
 		gen[b] = g
 	}
-	// a slice child (Args) is visited by a loop over it: the loop may run zero times, so the child counts as
-	// visited from the block that takes its length for the loop, provided the loop body hands each element on
-	elemVisited := map[string]bool{}
-	for _, b := range fn.Blocks {
-		for _, in := range b.Instrs {
-			if call, ok := in.(ssa.CallInstruction); ok {
-				f := staticCallee(call.Common())
-				if idx := isVisitorFunc(p, f); f != nil && idx >= 0 && idx < len(call.Common().Args) {
-					if ld, ok := call.Common().Args[idx].(*ssa.UnOp); ok {
-						if ia, ok := ld.X.(*ssa.IndexAddr); ok {
-							if fld := fieldOf(ia.X); fld != "" {
-								elemVisited[fld] = true
-							}
-						}
-					}
-				}
-			}
+	// a slice child (Args) is visited by a loop that hands every element on: the index runs from 0 to len(child), the
+	// visitor call happens in every iteration, and the loop is left only when the index is exhausted. Such a loop
+	// establishes the child from its header on (it may run zero times).
+	for _, h := range loopHeaders(fn) {
+		for _, fld := range fullSliceVisit(p, h, fieldOf) {
+			gen[h][fld] = true
 		}
 	}
-	for _, b := range fn.Blocks {
-		for _, in := range b.Instrs {
-			if call, ok := in.(*ssa.Call); ok {
-				if bi, ok := call.Call.Value.(*ssa.Builtin); ok && bi.Name() == "len" {
-					if fld := fieldOf(call.Call.Args[0]); fld != "" && elemVisited[fld] {
-						// only the length taken for a range loop counts: the call's block must lead into a loop
-						for _, ref := range *call.Referrers() {
-							if bo, ok := ref.(*ssa.BinOp); ok && bo.Op == token.LSS {
-								gen[b][fld] = true
-							}
-						}
-					}
-				}
-			}
-		}
-	}
-	// forward must dataflow (intersection at joins), restricted to blocks dominated by the definition
+	// forward must dataflow along the paths that start at the definition: only blocks reachable from it take part, and
+	// at a join only the predecessors that are themselves reachable from it are intersected (a return in the join
+	// block after a type switch is reached from the case body and has to find the children handed on there).
+	reach := reachableBlocks([]*ssa.BasicBlock{defBlock}, stop)
 	in := map[*ssa.BasicBlock]map[string]bool{}
 	out := map[*ssa.BasicBlock]map[string]bool{}
 	top := func() map[string]bool {
@@ -312,12 +347,18 @@ func visitObligation(p *Prog, fn *ssa.Function, n ssa.Value, children []string) 
 	for iter := 0; changed && iter < 50; iter++ {
 		changed = false
 		for _, b := range fn.Blocks {
+			if !reach[b] {
+				continue
+			}
 			var cur map[string]bool
 			if b == defBlock {
 				cur = map[string]bool{}
 			} else {
 				first := true
 				for _, pr := range b.Preds {
+					if !reach[pr] {
+						continue
+					}
 					if first {
 						cur = map[string]bool{}
 						for k := range out[pr] {
@@ -362,7 +403,7 @@ func visitObligation(p *Prog, fn *ssa.Function, n ssa.Value, children []string) 
 		if !ok {
 			continue
 		}
-		if !(b == defBlock || defBlock.Dominates(b)) {
+		if !reach[b] {
 			continue
 		}
 		st := out[b]
@@ -371,7 +412,11 @@ func visitObligation(p *Prog, fn *ssa.Function, n ssa.Value, children []string) 
 		}
 		for ch := range all {
 			if !st[ch] {
-				missing = append(missing, fmt.Sprintf("%s is not checked on a path to the return at %s", ch, p.Pos(ret.Pos())))
+				at := "the return at " + p.Pos(ret.Pos())
+				if !ret.Pos().IsValid() {
+					at = "the end of the function"
+				}
+				missing = append(missing, fmt.Sprintf("%s is not checked on a path to %s", ch, at))
 			}
 		}
 	}
@@ -380,6 +425,157 @@ func visitObligation(p *Prog, fn *ssa.Function, n ssa.Value, children []string) 
 		return missing[0]
 	}
 	return ""
+}
+
+// fullSliceVisit: the loop with header h hands every element of a slice child of the node to a visitor. Returns the
+// child's field name (or, for a loop over a slice literal built from children, the fields stored in it). The loop has the shape `i from 0; i < len(child); i+1` (a range loop or a counting loop), the
+// visitor receives child[i], its call dominates every back edge, and the only exit is the header's bound test.
+func fullSliceVisit(p *Prog, h *ssa.BasicBlock, fieldOf func(ssa.Value) string) []string {
+	ifi, ok := h.Instrs[len(h.Instrs)-1].(*ssa.If)
+	if !ok {
+		return nil
+	}
+	body := naturalLoop(h)
+	if !body[h.Succs[0]] || body[h.Succs[1]] {
+		return nil
+	}
+	bo, ok := ifi.Cond.(*ssa.BinOp)
+	if !ok || bo.Op != token.LSS {
+		return nil
+	}
+	lc, ok := bo.Y.(*ssa.Call)
+	if !ok || len(lc.Call.Args) != 1 {
+		return nil
+	}
+	if bi, ok := lc.Call.Value.(*ssa.Builtin); !ok || bi.Name() != "len" {
+		return nil
+	}
+	over := lc.Call.Args[0]
+	var flds []string
+	if fld := fieldOf(over); fld != "" {
+		flds = []string{fld}
+	} else if sl, ok := over.(*ssa.Slice); ok && sl.Low == nil && sl.High == nil {
+		// []ExprNode{n.Left, n.Right}: an array written once per position and used for nothing else
+		al, ok := sl.X.(*ssa.Alloc)
+		if !ok {
+			return nil
+		}
+		for _, ref := range *al.Referrers() {
+			switch r := ref.(type) {
+			case *ssa.Slice:
+				if r != sl {
+					return nil
+				}
+			case *ssa.IndexAddr:
+				for _, r2 := range *r.Referrers() {
+					st, ok := r2.(*ssa.Store)
+					if !ok || st.Addr != r || !st.Block().Dominates(h) {
+						return nil
+					}
+					if fld := fieldOf(st.Val); fld != "" {
+						flds = append(flds, fld)
+					}
+				}
+			default:
+				return nil
+			}
+		}
+	}
+	if len(flds) == 0 {
+		return nil
+	}
+	// the index: counts every position from 0
+	counts := func(iv ssa.Value) bool {
+		phiOf := func(ph *ssa.Phi, start int64, next ssa.Value) bool {
+			if ph.Block() != h {
+				return false
+			}
+			for i, e := range ph.Edges {
+				if body[h.Preds[i]] {
+					if e != next {
+						return false
+					}
+				} else if k, ok := constInt(e); !ok || k != start {
+					return false
+				}
+			}
+			return true
+		}
+		plusOne := func(v ssa.Value) *ssa.Phi {
+			add, ok := v.(*ssa.BinOp)
+			if !ok || add.Op != token.ADD {
+				return nil
+			}
+			if k, ok := constInt(add.Y); !ok || k != 1 {
+				return nil
+			}
+			ph, _ := add.X.(*ssa.Phi)
+			return ph
+		}
+		if ph, ok := iv.(*ssa.Phi); ok {
+			// for i := 0; i < len; i++
+			for i, e := range ph.Edges {
+				if body[h.Preds[i]] {
+					return plusOne(e) == ph && phiOf(ph, 0, e)
+				}
+			}
+			return false
+		}
+		// range: the phi starts at -1 and is incremented before the test
+		if ph := plusOne(iv); ph != nil {
+			return phiOf(ph, -1, iv)
+		}
+		return false
+	}
+	if !counts(bo.X) {
+		return nil
+	}
+	// left only through the bound test
+	for b := range body {
+		if b == h {
+			continue
+		}
+		for _, s := range b.Succs {
+			if !body[s] {
+				return nil
+			}
+		}
+		if len(b.Succs) == 0 {
+			return nil
+		}
+	}
+	// child[i] handed to a visitor in every iteration
+	for b := range body {
+		for _, in := range b.Instrs {
+			call, ok := in.(ssa.CallInstruction)
+			if !ok {
+				continue
+			}
+			f := staticCallee(call.Common())
+			idx := isVisitorFunc(p, f)
+			if f == nil || idx < 0 || idx >= len(call.Common().Args) {
+				continue
+			}
+			ld, ok := unwrap(call.Common().Args[idx]).(*ssa.UnOp)
+			if !ok {
+				continue
+			}
+			ia, ok := ld.X.(*ssa.IndexAddr)
+			if !ok || ia.Index != bo.X || !(ia.X == over || len(flds) == 1 && fieldOf(ia.X) == flds[0]) {
+				continue
+			}
+			every := true
+			for _, pr := range h.Preds {
+				if body[pr] && !(b == pr || b.Dominates(pr)) {
+					every = false
+				}
+			}
+			if every {
+				return flds
+			}
+		}
+	}
+	return nil
 }
 
 func runC11Site(c *Ctx) {
